@@ -165,7 +165,7 @@ pub fn replay_any(_c: &str, case: &Value, known: &Known) -> Option<Outcome> {
 pub fn run(ctx: &Ctx) -> i32 {
     ctx.run_replays(|c, case| replay_any(c, case, &ctx.known));
     let mut corpus = vec![];
-    for (i, s) in util::repo_queries().into_iter().enumerate() {
+    for (i, s) in util::corpus_programs().into_iter().enumerate() {
         for d in [None, Some(i % DIALECTS.len()), Some((i + 5) % DIALECTS.len())] {
             corpus.push(Case { source: s.clone(), dialect: d, format: i % 2 == 0 });
         }
